@@ -53,12 +53,52 @@ Theorem C11_lp_roundtrip_refuted :
 Proof. exact lp_witnesses. Qed.
 Print Assumptions C11_lp_roundtrip_refuted.
 
+(** Strongest true weakening, for ALL points, precisions, default times and float printers
+    (unbounded): if [valid pf prec p] then parsing the printed line returns exactly one point
+    and no error, and its accessors return the same series key as MakeKey, the same name, the
+    same tags in the same (sorted) order, the same field names with identical types and values
+    in the same order, and the same timestamp (the truncated default time when the point has
+    none).  [valid] (boolean, Model/C11.v) =
+      what NewPoint checks ([new_point_ok]: >=1 field, no empty field name, finite floats, time
+        in range, key + 4 + field key <= MaxKeyLength)
+      + representation invariants of the Go types (tags sorted by key without duplicates as
+        NewTags builds them, fields = a map printed in sorted order)
+      + THE GUARD, each conjunct of which is a way the unguarded statement fails on the real code:
+        measurement / tag keys / tag values / field keys non-empty, without newline, without a
+        backslash immediately before an escaped delimiter and without a trailing backslash;
+        measurement not starting with # TAB NUL; first field key not starting with TAB NUL; no
+        reserved tag key; tags ALSO sorted by their escaped keys; key + 4 + ESCAPED field key
+        <= MaxKeyLength (NewPoint measures the unescaped key, the parser the escaped one);
+        timestamp a multiple of the precision unit
+      + the hypothesis on the external float printer [pf] (strconv.AppendFloat 'f' -1, not
+        re-implemented), in executable form in [value_ok]: its text uses only digits . - , is
+        accepted by scanNumber and parses back (model of ParseFloat) to the same bits. *)
+Theorem C11_lp_roundtrip_partial :
+  forall pf prec dflt p, valid pf prec p = true ->
+    reparse prec dflt pf p =
+      ([ {| v_key := make_key (a_name p) (a_tags p); v_name := a_name p; v_tags := a_tags p;
+            v_fields := a_fields p;
+            v_time := match a_time p with Some t => t | None => trunc_time dflt prec end |} ], []).
+Proof. exact lp_roundtrip. Qed.
+Print Assumptions C11_lp_roundtrip_partial.
+
+(** Decimal integers (FormatInt / ParseInt, ParseUint) round-trip on the whole int64 / uint64
+    range. *)
+Theorem C11_int_text_roundtrip :
+  (forall z, (MinInt64 <= z <= MaxInt64)%Z -> parse_int64 (print_int z) = Some z) /\
+  (forall n, n <= MaxUint64 -> parse_uint64 (print_nat n) = Some n).
+Proof. split; [exact parse_int64_print|exact parse_uint64_print]. Qed.
+Print Assumptions C11_int_text_roundtrip.
+
 (** Non-vacuity: a point with escapes everywhere satisfies the guard and round-trips. *)
+Definition pf_one : N -> bytes := fun b => if b =? 4607182418800017408 then [49] else [].  (* 1.0 -> 1 *)
 Example C11_nonvacuous :
+  let no_floats := pf_one in
   let p := {| a_name := [109; 32; 120];                                   (* m x *)
               a_tags := [([97; 44], [61; 32]); ([98], [34])];              (* tags [a,]=[= ] and b=[dquote] *)
               a_fields := [([102; 32], VStr [34; 92; 10; 44]); ([103], VInt (-9223372036854775808));
-                           ([104], VUint 18446744073709551615); ([105], VBool true)];
+                           ([104], VUint 18446744073709551615); ([105], VBool true);
+                           ([106], VFloat 4607182418800017408)];
               a_time := Some (-1700000000000000000)%Z |} in
   valid no_floats P_s p = true /\
   key_name_ok (a_name p) = true /\ key_tags_ok (a_tags p) = true /\
